@@ -329,7 +329,11 @@ func genC12(t *rapid.T) C12Case {
 	foreign := []string{"db2__a__20260101-000000-000000000__GX.pb.gz", "dbx__a__20260101-000000-000000000__GX.pb.gz",
 		"db__garbage", "db__a__20260101-000000-000000000__GX.txt", "db__a__20260101-000000-000000000__GX.pb.gz.tmp",
 		"db__a__2026__GX.pb.gz", "db__dir/a__20260101-000000-000000000__GX.pb.gz", "db__a__b.pb.gz", "readme.md", "db",
-		"db__a__20260101-000000-00000000__GX.pb.gz"}
+		"db__a__20260101-000000-00000000__GX.pb.gz",
+		// files of another registered kind (see init in c15_test.go), older and newer than any snapshot of their instance:
+		// well-formed names of this database that are not snapshots - never deleted, never counted as "newest snapshot"
+		"db__a__20200101-000000-000000000__GX.delta.pb.gz", "db__a__20990101-000000-000000000__GX.delta.pb.gz",
+		"db__b__20990101-000000-000000001__GX.delta.pb.gz", "db__ghost__20990101-000000-000000000__GX.delta.pb.gz"}
 	for i := 0; i < n; i++ {
 		op := C12Op{Kind: rapid.SampledFrom([]string{"publish", "publish", "publish", "advance", "advance", "run", "run", "run", "merge", "merge", "commit", "foreign", "extdel", "busy"}).Draw(t, "kind")}
 		switch op.Kind {
